@@ -219,6 +219,35 @@ def run_with_deadline(run_fn, fn, tier, seconds):
         signal.signal(signal.SIGALRM, old)
 
 
+ALT_ENV = {"TZ": "Pacific/Chatham", "PYTHONOPTIMIZE": "1"}
+SCRATCH_ROOT = os.path.join(__import__("tempfile").gettempdir(), "alos2-verif-altenv-cwd")
+ALT_ENV_BUDGET_S = {"quick": 900, "thorough": 7200}
+
+
+def run_alt_env(pid, fn_name, tier, seed):
+    env = dict(os.environ)
+    env.update(ALT_ENV)
+    env["PYTHONHASHSEED"] = str(1 + (seed * 7919 + 13) % 4000000000)
+    env["VERIF_SEED"] = str(seed)
+    env["VERIF_ALT_ENV"] = "0"
+    name = f"{fn_name} [alt env: TZ={ALT_ENV['TZ']}, -O, hash seed {env['PYTHONHASHSEED']}]"
+    os.makedirs(SCRATCH_ROOT, exist_ok=True)
+    try:
+        p = subprocess.run([sys.executable, os.path.abspath(__file__), "_oracle", pid, "--fn", fn_name, "--tier", tier],
+                           cwd=SCRATCH_ROOT, env=env, capture_output=True, text=True, timeout=ALT_ENV_BUDGET_S.get(tier, 900))
+        line = [ln for ln in p.stdout.splitlines() if ln.startswith("@@RESULT@@")]
+        if not line:
+            return {"name": name, "evaluations": 0, "distinct": 0, "crash": f"no result (rc={p.returncode})", "trace": (p.stderr or "")[-1200:]}
+        r = json.loads(line[-1][len("@@RESULT@@"):])
+    except subprocess.TimeoutExpired:
+        return {"name": name, "evaluations": 0, "distinct": 0, "note": "alternative-environment pass stopped at its time budget"}
+    r["name"] = name
+    for v in r.get("violations", []):
+        if isinstance(v.get("case"), dict):
+            v["case"]["environment"] = {**ALT_ENV, "PYTHONHASHSEED": env["PYTHONHASHSEED"], "cwd": SCRATCH_ROOT}
+    return r
+
+
 def check(pid, tier, seed):
     t0 = time.time()
     mod = importlib.import_module(f"props.{pid.lower()}")
@@ -290,6 +319,12 @@ def check(pid, tier, seed):
             results.append(r)
             continue
         results.append(run_fn(fn, tier))
+
+    # the properties hold in every process environment: the oracles once more in a subprocess with another time zone
+    # (UTC+12:45 / +13:45 with DST), another string-hash seed, `python -O` (assert statements stripped) and another cwd
+    for fn in mod.checks(tier):
+        if fn.__name__.startswith("oracle") and os.environ.get("VERIF_ALT_ENV", "1") != "0":
+            results.append(run_alt_env(pid, fn.__name__, tier, seed))
 
     def any_new_violation():
         kn = load_known()
@@ -409,7 +444,8 @@ def setup():
 
 def main():
     ap = argparse.ArgumentParser()
-    ap.add_argument("cmd", choices=["check", "setup", "replay"])
+    ap.add_argument("cmd", choices=["check", "setup", "replay", "_oracle"])
+    ap.add_argument("--fn")
     ap.add_argument("pid", nargs="?")
     ap.add_argument("path", nargs="?")
     ap.add_argument("--tier", default=os.environ.get("VERIF_TIER", "quick"))
@@ -426,6 +462,17 @@ def main():
         except Exception:  # noqa: BLE001
             traceback.print_exc()
             return 2
+    if a.cmd == "_oracle":
+        # one oracle function in THIS process (started by `check` with an alternative process environment); result as JSON
+        mod = importlib.import_module(f"props.{a.pid.lower()}")
+        fn = next(f for f in mod.checks(a.tier) if f.__name__ == a.fn)
+        limit_memory()
+        try:
+            r = fn(seed, a.tier)
+        except BaseException as e:  # noqa: BLE001
+            r = {"name": a.fn, "evaluations": 0, "distinct": 0, "crash": f"{type(e).__name__}: {e}", "trace": traceback.format_exc()[-1500:]}
+        sys.stdout.write("\n@@RESULT@@" + json.dumps(r, default=str) + "\n")
+        return 0
     if a.cmd == "replay":
         mod = importlib.import_module(f"props.{a.pid.lower()}")
         with open(a.path) as f:
